@@ -105,6 +105,12 @@ struct PFilterCount { using Mixins = eventpp::MixinList<eventpp::MixinFilter, Mi
 struct PCountFilter { using Mixins = eventpp::MixinList<MixinCount, eventpp::MixinFilter>; using ArgumentPassingMode = eventpp::ArgumentPassingExcludeEvent; };
 struct PFilterGate { using Mixins = eventpp::MixinList<eventpp::MixinFilter, MixinGate>; using ArgumentPassingMode = eventpp::ArgumentPassingExcludeEvent; };
 struct PGateFilter { using Mixins = eventpp::MixinList<MixinGate, eventpp::MixinFilter>; using ArgumentPassingMode = eventpp::ArgumentPassingExcludeEvent; };
+// a mixin without an interceptor of its own (doc/mixins.md: the interceptor is optional). In FRONT of MixinFilter it inherits
+// MixinFilter's mixinBeforeDispatch, which the library then calls once per level: known finding E15 (configurations 12 and 13,
+// which the generators never choose; the committed replay selects them)
+template <typename Base> class MixinPlain : public Base { public: int plainExtra() const { return 7; } };
+struct PPlainFilter { using Mixins = eventpp::MixinList<MixinPlain, eventpp::MixinFilter>; using ArgumentPassingMode = eventpp::ArgumentPassingExcludeEvent; };
+struct PFilterPlain { using Mixins = eventpp::MixinList<eventpp::MixinFilter, MixinPlain>; using ArgumentPassingMode = eventpp::ArgumentPassingExcludeEvent; };
 struct PHeterFilter { using Mixins = eventpp::MixinList<eventpp::MixinHeterFilter>; };
 struct PContinue
 {
@@ -291,7 +297,9 @@ struct Adapt : IF
 	long count() override { return 0; }
 };
 
-const int kConfigs = 12;
+const int kConfigs = 14;      // generated: 0..kAllConfigs-1 without the two configurations of known finding E15
+const int kAllConfigs = 16;
+const int kKnownFirst = 14;   // 14, 15: interceptor-less mixin in front of MixinFilter (E15), replay tier only
 IF * makeImpl(int cfg)
 {
 	using DA = eventpp::EventDispatcher<int, void (int, std::string), PFilter>;
@@ -315,6 +323,10 @@ IF * makeImpl(int cfg)
 	case 8: return new ContVal<false>();
 	case 9: return new ContVal<true>();
 	case 10: return new Homo<eventpp::EventDispatcher<int, void (int, std::string), PFilterGate>, true, 1, false>();
+	case 12: return new Homo<eventpp::EventDispatcher<int, void (int, std::string), PFilterPlain>, true, 0, false>();
+	case 13: return new Homo<eventpp::EventQueue<int, void (int, std::string), PFilterPlain>, true, 0, true>();
+	case 14: return new Homo<eventpp::EventDispatcher<int, void (int, std::string), PPlainFilter>, true, 0, false>();
+	case 15: return new Homo<eventpp::EventQueue<int, void (int, std::string), PPlainFilter>, true, 0, true>();
 	default: return new Homo<eventpp::EventQueue<int, void (int, std::string), PGateFilter>, true, 2, true>();
 	}
 }
@@ -364,8 +376,9 @@ struct Interp
 		failed = true;
 		std::string s = log.str();
 		if(s.size() > 600) s = "..." + s.substr(s.size() - 600);
-		v.fail(rule, dom(), msg + " | log: " + s);
+		v.fail(rule, dom(), msg + " | log: " + s, knownCfg ? "filter.plainmixin.front" : "");
 	}
+	bool knownCfg = false;
 	static std::string show(const Args & a) { return "(" + std::to_string(a.a) + ", \"" + a.s + "\")"; }
 
 	bool filterVerdict(const FilterSpec & f, const Args & a) {
@@ -555,7 +568,8 @@ struct Interp
 	}
 
 	void run() {
-		const int cfg = prog.params.empty() ? 0 : ((prog.params[0] % kConfigs) + kConfigs) % kConfigs;
+		const int cfg = prog.params.empty() ? 0 : ((prog.params[0] % kAllConfigs) + kAllConfigs) % kAllConfigs;
+		knownCfg = cfg >= kKnownFirst;
 		impl.reset(makeImpl(cfg));
 		exec(prog.ops, 0);
 		if(! failed && impl->countMixin() && impl->count() != expectCount) {
